@@ -39,6 +39,8 @@ RULE = (
     " Half of the switched clients share everything the two families can share (same communit"
     "y for v1<->v2c, same user and passwords between v3 levels); context engine ids also of z"
     "ero octets only."
+    " In 40% of the v3 cases the agent announces msgMaxSize 484..2^31-1; every request must c"
+    "arry the msgMaxSize this client announced in its own discovery probe."
 )
 ASSUMPTIONS = [
     "the first datagram of a fresh v3 client is the discovery probe (C12 owns its content); it must still decode under the strict decoder",
